@@ -55,15 +55,20 @@ P0 = names_of(0)
 
 
 def fork_copy(child, parent):
-    """what fork() does to the object: same attribute values, the handle refers to the same open file description"""
-    child.file = parent.file
-    child._opened_in_process_with_id = parent._opened_in_process_with_id
+    """what fork() does to the object: same attribute values, the handle refers to the same open file description.
+    Placeholder: make() replaces it by a generated function with one assignment per scalar / handle attribute of the
+    real object (whatever attributes the current source of the class defines), see gen_fork_copy."""
+    raise NotImplementedError
 
 
-def fork_copy_mm(child, parent):
-    child.file = parent.file
-    child.mm = parent.mm
-    child._opened_in_process_with_id = parent._opened_in_process_with_id
+def gen_fork_copy(obj):
+    names = sorted(k for k, v in vars(obj).items() if v is None or isinstance(v, (bool, int)))
+    src = "def fork_copy(child, parent):\n" + "".join("    child.%s = parent.%s\n" % (n, n) for n in names)
+    ns = {"__name__": __name__}
+    exec(compile(src, __file__ + ":generated-fork_copy", "exec"), ns)
+    fn = ns["fork_copy"]
+    fn.__module__ = __name__
+    return fn, names
 
 
 def scenario_fork_reads(f, r1, r2, r3, pre, nreads, nlines, mm):
@@ -71,22 +76,13 @@ def scenario_fork_reads(f, r1, r2, r3, pre, nreads, nlines, mm):
     if pre >= 1:
         one_read(f, "p0_pre0", nlines)  # the parent's position at fork time is whatever its last read left
     if r1 is not None:
-        if mm:
-            fork_copy_mm(r1.f, f)
-        else:
-            fork_copy(r1.f, f)
+        fork_copy(r1.f, f)
         r1.start()
     if r2 is not None:
-        if mm:
-            fork_copy_mm(r2.f, f)
-        else:
-            fork_copy(r2.f, f)
+        fork_copy(r2.f, f)
         r2.start()
     if r3 is not None:
-        if mm:
-            fork_copy_mm(r3.f, f)
-        else:
-            fork_copy(r3.f, f)
+        fork_copy(r3.f, f)
         r3.start()
     reads(f, P0, nreads, nlines)
     if r1 is not None:
@@ -135,8 +131,10 @@ def make(cfg, ctx, mode, ctrl=None, restore=None):
             rs.append(r)
         else:
             rs.append(None)
+    fn, copied = gen_fork_copy(f)
+    globals()["fork_copy"] = fn
     info = {"list_caps": {}, "default_cap": max(nlines, 1), "dict_keys": nlines + 1, "files": {PATH: F},
-            "fork_functions": ["fork_copy", "fork_copy_mm"]}
+            "fork_functions": ["fork_copy"], "fork_copied_attributes": copied}
     return {"scenario": scenario_fork_reads,
             "args": (f, rs[0], rs[1], rs[2], CInt(cfg.get("pre", 0)), CInt(cfg.get("reads", 1)), CInt(nlines), kind == "mmap"),
             "info": info}
